@@ -19,8 +19,13 @@ func decodeFuzz(b []byte) (Case, bool) {
 		n = len(rest)
 	}
 	state, uri := string(rest[:n]), string(rest[n:])
-	if !utf8.ValidString(state) || !utf8.ValidString(uri) || len(state) > 4096 || len(uri) > 4096 {
+	if !utf8.ValidString(uri) || len(state) > 4096 || len(uri) > 4096 {
 		return Case{}, false
+	}
+	// a state that is not valid UTF-8 is a byte string: the case carries its Latin-1 spelling (and so do the values derived from it)
+	raw := !utf8.ValidString(state)
+	if raw {
+		state = spell(state)
 	}
 	if uri == "" {
 		uri = "https://rp.example.com/cb"
@@ -37,6 +42,9 @@ func decodeFuzz(b []byte) (Case, bool) {
 	}
 	if sel&0x40 != 0 {
 		c.SessionState = state
+	}
+	if raw {
+		c.Bytes = []string{"state", "session_state", "code", "access_token", "err_desc"}
 	}
 	switch c.Via {
 	case "form":
@@ -67,7 +75,7 @@ func fuzzSeed(sel byte, state, uri string) []byte {
 func FuzzAuthResponse(f *testing.F) {
 	var seeds [][]byte
 	uris := []string{"https://rp.example.com/cb", "https://rp.example.com/cb?x=1&a=a+b&a=%2B", "com.example.app:/cb", "http://[::1]:8080/cb?k%20sp=%26%3D#frag", "https://rp.example.com/cb\"><script>alert(1)</script>"}
-	states := []string{"xyz", "a+b/c=", "\"><b>&amp;'", "100% é \U0001F600", ""}
+	states := []string{"xyz", "a+b/c=", "\"><b>&amp;'", "100% é \U0001F600", "", "st\xff\xfe\xe4-1", "\xc0\"><b>\xed\xa0\x80"}
 	sel := byte(0)
 	for _, u := range uris {
 		for _, s := range states {
